@@ -15,6 +15,23 @@ for _n in range(1, 20):
         CHECKS[_id] = "vf.harness." + _id.lower()
 
 
+def _watchdog(prop, seconds):
+    """a check never hangs: code under test that blocks forever where no time-out guards it ends the check
+    with an engine error (exit 2), never silently"""
+    import threading
+
+    def fire():
+        print("ENGINE-ERROR property=%s the check did not finish within %.0f s (a call into the code under test "
+              "blocked forever?)" % (prop, seconds), file=sys.stderr)
+        sys.stdout.flush()
+        sys.stderr.flush()
+        os._exit(core.EXIT_ENGINE)
+
+    t = threading.Timer(seconds, fire)
+    t.daemon = True
+    t.start()
+
+
 def main(argv):
     if len(argv) < 1:
         print(__doc__)
@@ -30,6 +47,7 @@ def main(argv):
             print("no check for %s" % prop, file=sys.stderr)
             return 2
         os.environ["VERIF_TIER_RUNNING"] = tier
+        _watchdog(prop, float(os.environ.get("VERIF_CHECK_TIMEOUT", "2400" if tier == "quick" else "14400")))
         mod = importlib.import_module(CHECKS[prop])
         if hasattr(mod, "run"):
             return mod.run(tier, seed)
